@@ -916,7 +916,10 @@ LEVEL_NOTE = ("Trusted: Coq kernel, extraction (reduced by the in-kernel recheck
               "early/late are not compared exactly, the oracle bounds them), the http/bytes/tokio crates below the modelled functions (http's "
               "Uri/HeaderName/HeaderValue/Method checks are transcribed, parse_print* take the Uri verdict as the hypothesis expect .. = Some ..). "
               "The constants 16 KiB and 5 s and the glue of parse_http_1 are tied by loopback runs through the real accept, not modelled as "
-              "code. Not covered: requests whose header names repeat (judged by segmentation_blind only); methods of 8 bytes and more "
+              "code (TRUSTED says which model parameter each of them is). 'Rather than a hang' is proved of the model as termination of "
+              "every reading loop within its fuel for every schedule, and observed on the code by watchdogs whose verdicts are outcomes of "
+              "the case (spin on 0-byte reads / no return within 10 s / worker thread lost), so a reader that hangs yields a VIOLATION with "
+              "the stream and the schedule as replay instead of a check that does not return. Not covered: requests whose header names repeat (judged by segmentation_blind only); methods of 8 bytes and more "
               "(PROPFIND and PROPPATCH are in utils::valid_method but longer than the parser's 7-byte method buffer: refused with "
               "InvalidVersion, outside the property's 'method up to 7 letters'); obs-fold (a continuation line is an error: RFC 9112 allows "
               "that); the body time-out of 30 s (not a clause); the cfg(not(async-networking)) duplicate of the reader. Twelve defects were "
